@@ -138,10 +138,16 @@ func tryReplay(eng *Engine, verif, prop string, ob *Obligation, b *strings.Build
 	}
 	sig := fn.Signature
 	hasRecv := sig.Recv() != nil
+	recvFromModel := false
 	if hasRecv {
 		if refs := fn.Params[0].Referrers(); refs != nil {
 			for _, r := range *refs {
 				if _, dbg := r.(*ssa.DebugRef); !dbg {
+					// a used receiver can be rebuilt from the model only if it is a scalar or a byte slice value
+					if rt := fn.Params[0].Type(); isScalarType(rt) || isByteSlice(rt) {
+						recvFromModel = true
+						break
+					}
 					say("not attempted (the receiver is used by the function: its state is not reconstructed from the model)")
 					return false
 				}
@@ -158,6 +164,26 @@ func tryReplay(eng *Engine, verif, prop string, ob *Obligation, b *strings.Build
 			}
 		}
 	}
+	if anyClause == nil {
+		// no clause to take the source spelling from (zero-annotation sweep): print the types with the import names
+		// of the function's own file
+		srcPath := eng.fset.Position(fn.Pos()).Filename
+		alias := fileImportAliases(srcPath)
+		q := func(p *types.Package) string {
+			if p == fn.Pkg.Pkg {
+				return ""
+			}
+			if a, ok := alias[p.Path()]; ok {
+				return a
+			}
+			return p.Name()
+		}
+		for i, p := range fn.Params {
+			if i < len(con.SynParams) {
+				typeText[con.SynParams[i]] = types.TypeString(p.Type(), q)
+			}
+		}
+	}
 	names := con.SynParams
 	np := len(fn.Params)
 	var argExprs, decls []string
@@ -167,7 +193,7 @@ func tryReplay(eng *Engine, verif, prop string, ob *Obligation, b *strings.Build
 			return false
 		}
 		n := names[i]
-		if hasRecv && i == 0 {
+		if hasRecv && i == 0 && !recvFromModel {
 			decls = append(decls, fmt.Sprintf("\tvar %s %s", n, typeText[n]))
 			continue
 		}
@@ -214,7 +240,9 @@ func tryReplay(eng *Engine, verif, prop string, ob *Obligation, b *strings.Build
 			say("not attempted (parameter %s of type %s is neither a scalar nor a byte slice)", n, p.Type())
 			return false
 		}
-		argExprs = append(argExprs, n)
+		if !(hasRecv && i == 0) {
+			argExprs = append(argExprs, n)
+		}
 	}
 	var resNames []string
 	for i := np; i < len(names); i++ {
@@ -319,6 +347,22 @@ func tryReplay(eng *Engine, verif, prop string, ob *Obligation, b *strings.Build
 	}
 	say("not confirmed (the concrete run did not fail, or the test did not build)")
 	return false
+}
+
+// fileImportAliases: import path -> name used for it in the file (explicit alias, else none recorded).
+func fileImportAliases(path string) map[string]string {
+	out := map[string]string{}
+	data, err := os.ReadFile(path)
+	if err != nil {
+		return out
+	}
+	re := regexp.MustCompile(`(?m)^\s*(\w+)\s+"([^"]+)"\s*$`)
+	for _, m := range re.FindAllStringSubmatch(string(data), -1) {
+		if m[1] != "import" && m[1] != "_" {
+			out[m[2]] = m[1]
+		}
+	}
+	return out
 }
 
 // fileImportsText: the import declarations of a Go source file, as text (the replay test reuses them; unused ones are
